@@ -10,7 +10,7 @@ CASE_TYPE = 'C03.case'
 EXTRA_IMPORTS = dispenv.DISP_IMPORTS + 'From PJ Require Import Corr.DispOk.\n'
 RULE = ('failure kinds x {call, notification, inside a batch at each position of a 3-batch}: protocol errors with codes '
         '{0,1,-1, six standard codes, -32099, 2**70} x messages {"", "m"} x data {absent, null, 0, "", [], {}, nested}; exception '
-        'types ValueError, KeyError, TypeError (raised inside the body), AssertionError, RuntimeError, custom subclass, an exception class whose __repr__ / __str__ raise, and the non-protocol exceptions of the library itself (validators.ValidationError, DeserializationError, IdentityError), each carrying '
+        'types ValueError, KeyError, TypeError (raised inside the body), AssertionError, RuntimeError, custom subclass, an exception class whose __repr__ / __str__ raise, a TypeError from inside the body worded like an argument mismatch, and the non-protocol exceptions of the library itself (validators.ValidationError, DeserializationError, IdentityError), each carrying '
         'a marker string searched for in the response; unknown method; params that do not bind (missing/surplus/unknown, list and '
         'mapping); invalid request objects; invalid batches; non-JSON and huge-integer texts; ONE long-lived error object whose fields are set from the arguments and which is raised again by a later request (every ordered pair over 7 argument triples); both dispatchers, and the asynchronous dispatcher serving plain functions. distinct = distinct '
         '(config, text, kind); non-trivial = the reply carries an error code or the text is JSON')
@@ -70,7 +70,7 @@ def generate(seed, tier):
     for code, msg, data in itertools.product(CODES, MSGS, DATAS):
         for doc in shapes('f'):
             cases.append({'cfg': cfg_rpc(code, msg, data), 'text': json.dumps(doc)})
-    for tag in range(10):
+    for tag in range(11):
         for doc in shapes('f'):
             cases.append({'cfg': cfg_exc(tag), 'text': json.dumps(doc)})
     # one long-lived error object re-raised with other fields: every ordered pair of calls, the first one served (and
